@@ -12,8 +12,8 @@ import (
 	"github.com/linxGnu/grocksdb"
 
 	"verif/harness/internal/fw"
-	lab "verif/harness/internal/mptlab"
 	"verif/harness/internal/model"
+	lab "verif/harness/internal/mptlab"
 )
 
 // C03 — child tries are isolated transactions: merge publishes, discard / rejected merge leave no trace.
